@@ -124,6 +124,138 @@ theorem uniform_round_fork (h1 : 0 < host.blocks.length) (h2 : host.blocks.lengt
   unfold isDifferent
   rw [if_pos hlen]
 
+theorem set_cons_ne (a : String × List Block) (c : Cands) (t : String) (bs : List Block) (h : a.1 ≠ t) :
+    Cands.set (a :: c) t bs = a :: Cands.set c t bs := by
+  unfold Cands.set
+  have hb : (a.1 == t) = false := by simpa using h
+  simp only [List.any_cons, hb, Bool.false_or, List.map_cons]
+  split
+  · simp
+  · simp
+
+theorem foldl_set_cons (Y : List Block) (a : String × List Block) :
+    ∀ (rs : List Resp) (c : Cands), (∀ r ∈ rs, r.target ≠ a.1) →
+      rs.foldl (fun (c : Cands) r => c.set r.target Y) (a :: c) =
+        a :: rs.foldl (fun (c : Cands) r => c.set r.target Y) c := by
+  intro rs
+  induction rs with
+  | nil => intro c _; rfl
+  | cons r rs ih =>
+    intro c h
+    rw [List.foldl_cons, List.foldl_cons, set_cons_ne a c r.target Y (fun e => h r (by simp) e.symm)]
+    exact ih _ (fun r' hr' => h r' (by simp [hr']))
+
+/-- **private chain of three or more blocks, uniform answers.**  The host holds more than two blocks; every incremental
+    answer is refused (its chain is not the neighbours'); every neighbour serves `X` from height 0, accepted from
+    height 0, longer than the host's chain, of positive age.  Then every outcome of the round holds exactly `X`: the
+    host's own chain is a candidate but loses to the longer `X`. -/
+theorem uniform_round_fork_private (h3 : 2 < host.blocks.length)
+    (hne : resps ≠ []) (ht : ∀ r ∈ resps, r.target ≠ "host")
+    (hrej : ∀ r ∈ resps, ∀ nb, r.first = some nb →
+      ∃ e, Ledger.verify env cfg host host.blocks.getLast?.toList nb host.blocks.dropLast now = .error e)
+    (hresp : ∀ r ∈ resps, r.second = some X)
+    (hacc : Ledger.verify env cfg host host.blocks.dropLast X [] now = .ok X)
+    (hlen : host.blocks.length < X.length)
+    (hage : 0 < age X) :
+    ∀ l ∈ outcomes env cfg host now resps, l.blocks = X := by
+  have hhc : hostCands host = [("host", host.blocks)] := by unfold hostCands; rw [if_pos h3]
+  have hc1 : SL.Sync.cands1 env cfg host now resps = [("host", host.blocks)] := by
+    unfold SL.Sync.cands1; rw [if_pos h3, hhc, phase1_noop resps _ hrej]
+  have hrl : 0 < resps.length := List.length_pos_iff.mpr hne
+  have hfork : (choose env cfg host now resps).isFork = true := by
+    rw [choose_isFork, hc1]
+    have : 0 < host.blocks.length := by omega
+    simp [this, hrl]
+  -- the candidates: the host's entry, then entries that all carry X
+  have hcands : (choose env cfg host now resps).cands =
+      ("host", host.blocks) :: resps.foldl (fun (c : Cands) r => c.set r.target X) [] := by
+    rw [choose_cands_fork ht hfork, hhc, phase2_uniform hacc resps _ hresp,
+      foldl_set_cons X ("host", host.blocks) resps [] ht]
+  have hY : ∀ kv ∈ resps.foldl (fun (c : Cands) r => c.set r.target X) [], kv.2 = X := by
+    intro kv hkv
+    rcases foldl_set_only X resps [] kv hkv with h | h
+    · cases h
+    · exact h
+  obtain ⟨t0, ht0Y⟩ : ∃ t, (t, X) ∈ resps.foldl (fun (c : Cands) r => c.set r.target X) [] := by
+    cases resps with
+    | nil => exact absurd rfl hne
+    | cons r rs =>
+      rw [List.foldl_cons]
+      exact foldl_set_has X rs _ ⟨r.target, set_mem_self _ _ _⟩
+  have ht0 : (t0, X) ∈ (choose env cfg host now resps).cands := by
+    rw [hcands]; exact List.mem_cons_of_mem _ ht0Y
+  have hE : ∀ kv ∈ (choose env cfg host now resps).cands, kv.2 = host.blocks ∨ kv.2 = X := by
+    intro kv hkv
+    rw [hcands] at hkv
+    rcases List.mem_cons.mp hkv with h | h
+    · left; rw [h]
+    · right; exact hY kv h
+  have hmaxle : maxLen host.blocks.length (choose env cfg host now resps).cands ≤ X.length :=
+    foldl_max_le (fun (kv : String × List Block) => kv.2.length) _ _ _ (by omega)
+      (fun kv hkv => by rcases hE kv hkv with e | e <;> rw [e] <;> omega)
+  have hmin : minLen host.blocks.length (choose env cfg host now resps).cands = host.blocks.length :=
+    Nat.le_antisymm (minLen_le _ _) (minLen_ge _ _ _ (Nat.le_refl _)
+      (fun kv hkv => by rcases hE kv hkv with e | e <;> rw [e] <;> omega))
+  -- (t0, X) survives both filters
+  have hsv : (t0, X) ∈ (choose env cfg host now resps).survivors := by
+    rw [choose_survivors, List.mem_filter]
+    refine ⟨?_, by simp only [Bool.not_eq_true', decide_eq_false_iff_not]; omega⟩
+    unfold majorityFilter
+    rw [List.mem_filter]
+    refine ⟨ht0, ?_⟩
+    simp only [hmin]
+    -- all the entries that carry X agree with X on the previous hash: at least |cands| − 1 of them
+    have hge : (resps.foldl (fun (c : Cands) r => c.set r.target X) []).length ≤
+        ((choose env cfg host now resps).cands.filter (fun other =>
+          prevHashAt X (host.blocks.length - 1) == prevHashAt other.2 (host.blocks.length - 1))).length := by
+      rw [hcands, List.filter_cons]
+      have hall : (resps.foldl (fun (c : Cands) r => c.set r.target X) []).filter (fun other =>
+          prevHashAt X (host.blocks.length - 1) == prevHashAt other.2 (host.blocks.length - 1)) =
+          resps.foldl (fun (c : Cands) r => c.set r.target X) [] := by
+        rw [List.filter_eq_self]
+        intro kv hkv
+        rw [hY kv hkv]
+        exact beq_self_eq_true _
+      split
+      · rw [List.length_cons, hall]; omega
+      · rw [hall]; exact Nat.le_refl _
+    have hYpos : 0 < (resps.foldl (fun (c : Cands) r => c.set r.target X) []).length :=
+      List.length_pos_of_mem ht0Y
+    have hcl : (choose env cfg host now resps).cands.length =
+        (resps.foldl (fun (c : Cands) r => c.set r.target X) []).length + 1 := by rw [hcands]; simp
+    simp only [Bool.not_eq_true', decide_eq_false_iff_not]
+    rw [hcl]
+    omega
+  have hsvX : ∀ kv ∈ (choose env cfg host now resps).survivors, kv.2 = X := by
+    intro kv hkv
+    have hkc := survivors_sub_cands hkv
+    rw [choose_survivors, List.mem_filter] at hkv
+    have hl := hkv.2
+    simp only [Bool.not_eq_true', decide_eq_false_iff_not, Nat.not_lt] at hl
+    have hge : X.length ≤ maxLen host.blocks.length (choose env cfg host now resps).cands :=
+      maxLen_ge_mem _ _ ht0
+    rcases hE kv hkc with e | e
+    · rw [e] at hl; omega
+    · exact e
+  have hmaxage : (choose env cfg host now resps).maxAge = age X := by
+    rw [choose_maxAge]
+    have hge := foldl_max_ge_mem (fun (kv : String × List Block) => age kv.2)
+      (choose env cfg host now resps).survivors 0 hsv
+    rcases foldl_max_attained (fun (kv : String × List Block) => age kv.2)
+      (choose env cfg host now resps).survivors 0 with h | ⟨kv, hkv, h⟩
+    · rw [h] at hge; have hge' : age X ≤ 0 := hge; omega
+    · rw [h]; show age kv.2 = age X; rw [hsvX kv hkv]
+  have hselX : X ∈ selectionSet (choose env cfg host now resps) :=
+    mem_selectionSet.mpr ⟨by omega, t0, hsv, hmaxage.symm⟩
+  intro l hl
+  obtain ⟨sel, hsel, rfl⟩ := outcomes_of_nonempty (List.ne_nil_of_mem hselX) hl
+  obtain ⟨_, t, hsvs, _⟩ := mem_selectionSet.mp hsel
+  have hsx : sel = X := hsvX _ hsvs
+  rw [hsx, hfork]
+  apply commit_phase2 hacc
+  unfold isDifferent
+  rw [if_pos hlen]
+
 end
 end ProgressL
 end Ru
